@@ -215,6 +215,30 @@ func runRegistryHistory(c *core.Ctx, seq []cfSym) {
 
 var cfStrings = []string{"", "a", "plain text", "héllo", "中", "x y z", "0", "line\nbreak"}
 
+// strings with HTML-special characters only travel through the data map or
+// come back as results (a literal would be escaped, which is C10's business)
+var cfSpecialStrings = []string{"<b>bold</b>", "a & b", "\"quoted\" 'single'", "&lt;already&gt;", "1 < 2 > 0"}
+
+func hasSpecial(v model.Value) bool {
+	switch v.K {
+	case model.KStr:
+		return strings.ContainsAny(v.S, "<>&\"'\n")
+	case model.KArr:
+		for _, e := range v.A {
+			if hasSpecial(e) {
+				return true
+			}
+		}
+	case model.KObj:
+		for _, e := range v.O {
+			if hasSpecial(e) {
+				return true
+			}
+		}
+	}
+	return false
+}
+
 // cfValue generates a value that template literals and data can express
 func cfValue(r interface{ Intn(int) int }, depth int) model.Value {
 	if depth <= 0 || r.Intn(3) == 0 {
@@ -228,6 +252,9 @@ func cfValue(r interface{ Intn(int) int }, depth int) model.Value {
 		case 3:
 			return model.Nil
 		default:
+			if r.Intn(4) == 0 {
+				return model.Str(cfSpecialStrings[r.Intn(len(cfSpecialStrings))])
+			}
 			return model.Str(cfStrings[r.Intn(len(cfStrings))])
 		}
 	}
@@ -318,7 +345,7 @@ func init() {
 		Level: "exploration",
 		Rule: "histories are all sequences (up to a length bound, random longer ones) over {Register(type, name), Call on a literal, Call on a variable, CallInsideTemplate for 5 receiver types x names {f, g, a built-in name of that type}; LoadTemplates}, each replayed from the verif reset hook against a 20-line registry model: every registered function bakes a unique id into its result, so a call reveals which function is bound; conversion cases call a recording function with generated receivers and up to 3 arguments (integers incl. the 64-bit extremes, floats, strings, booleans, nil, nested arrays and objects to depth 3, as literals and as data) and compare what the function received with the plain Go value of the same content, and render a function result next to the same Go value passed as data, printed and probed through the same access paths. distinct_nontrivial = distinct histories and distinct conversion cases",
 		Assumptions: []string{
-			"string contents avoid < > & \" ' so that C10's escaping is not conflated; an empty array may reach a function as nil or as an empty slice",
+			"strings with < > & \" ' travel through the data map or come back as results only (a literal would be escaped, which is C10's business); an empty array may reach a function as a nil or an empty []any, never as untyped nil",
 			"the result of a function is limited by its Go signature (string, []any, int, float64, bool)",
 		},
 		Sections: func(tier core.Tier, seed int64) []core.Section {
@@ -406,7 +433,10 @@ func conversionCase(c *core.Ctx, i int) {
 	data := map[string]model.Value{}
 	var argSrc []string
 	recvSrc := model.Source(literalOf(recv), model.Style{Layout: model.SpaceLayout})
-	if recv.K == model.KStr && strings.Contains(recv.S, "\n") || r.Intn(2) == 0 {
+	if r.Intn(3) == 0 && recv.K == model.KStr {
+		recv = model.Str(cfSpecialStrings[r.Intn(len(cfSpecialStrings))])
+	}
+	if hasSpecial(recv) || r.Intn(2) == 0 {
 		data["rcv"] = recv
 		recvSrc = "rcv"
 	} else if recv.K == model.KInt && recv.I < 0 || recv.K == model.KFloat && recv.F < 0 {
@@ -414,7 +444,7 @@ func conversionCase(c *core.Ctx, i int) {
 	}
 	for k := range args {
 		args[k] = cfValue(r, 3)
-		if r.Intn(2) == 0 {
+		if hasSpecial(args[k]) || r.Intn(2) == 0 {
 			name := fmt.Sprintf("arg%d", k)
 			data[name] = args[k]
 			argSrc = append(argSrc, name)
@@ -464,7 +494,7 @@ func conversionCase(c *core.Ctx, i int) {
 	var giver string
 	switch r.Intn(5) {
 	case 0:
-		res, giver = model.Str(cfStrings[r.Intn(len(cfStrings))]), `"x"`
+		res, giver = model.Str(append(append([]string{}, cfStrings...), cfSpecialStrings...)[r.Intn(len(cfStrings)+len(cfSpecialStrings))]), `"x"`
 		cfResult = res.S
 	case 1:
 		res = cfValue(r, 3)
